@@ -68,7 +68,7 @@ theorem iterInOrder_pos {cfg : DCfg} (h : Pos cfg) (al : Align) (steps : List St
 
 /-! ### entries sit at or below the level that produced them -/
 
-theorem mem_foldl_children (children : List (PyVal × Result)) (f : Result → PyVal → Result)
+theorem mem_foldl_kids (children : List (PyVal × Result)) (f : Result → PyVal → Result)
     (hf : ∀ acc k, f acc k = match children.find? (fun p => keyEq p.1 k) with
       | some (_, r) => acc ++ r
       | Option.none => acc) :
@@ -129,7 +129,7 @@ theorem pre_V {cfg : DCfg} (hp : Pos cfg) (al : Align) (hashOf : PyVal → Strin
       rcases he with (⟨k, _, rfl⟩ | ⟨k, _, rfl⟩) | he
       · exact prefix_snoc _ _
       · exact prefix_snoc _ _
-      · rcases mem_foldl_children _ _ (fun _ _ => rfl) _ _ e he with h1 | ⟨q, hq, h1⟩
+      · rcases mem_foldl_kids _ _ (fun _ _ => rfl) _ _ e he with h1 | ⟨q, hq, h1⟩
         · simp at h1
         · exact pre_P hp al hashOf kvs1 kvs2 _ steps q hq e h1
     | _ => all_goals (simp [diffV] at he; subst he; exact List.prefix_refl _)
